@@ -18,6 +18,7 @@ def main():
     ap.add_argument("--nshards", type=int, default=1)
     ap.add_argument("--only-case", default=None)
     ap.add_argument("--budget", type=float, default=None)
+    ap.add_argument("--wallcap", type=float, default=None)
     ap.add_argument("--resume-after", default=None)
     ap.add_argument("--progress", default=None)
     ap.add_argument("--out", required=True)
@@ -32,7 +33,8 @@ def main():
         ctx.progress_path = a.progress
         ctx.checkpoint_path = a.out
     if a.budget:
-        ctx.deadline = time.time() + a.budget
+        ctx.cpu_budget = a.budget
+        ctx.deadline = time.time() + (a.wallcap or a.budget)
     status = "ok"
     err = None
     # some library methods read/write files in the cwd: isolate per shard
